@@ -394,6 +394,9 @@ func c13R2(p *Prog, r *Report) {
 			if d == mk || d == reslice {
 				continue
 			}
+			if !fc.G.ReachAfter(d, nil, nil)[dial.V] {
+				continue // a value assigned on a path that ends without dialling is never forwarded
+			}
 			okFlow := false
 			for i, l := range as.Lhs {
 				if isReqField(l, "Payload") && i < len(as.Rhs) {
@@ -566,6 +569,36 @@ func c13R4(p *Prog, r *Report) {
 		}
 		r.Check(len(closes) > 0 && !reach[c.fc.G.Exit], rule, fmt.Sprintf("netio.BidirectionalCopy:copy#%d-then-CloseWrite", i), c.cs.Pos(), dirName+": CloseWrite on the destination follows the copy on every path",
 			dirName+": after the copy ends, a path reaches the end without CloseWrite on the destination (e.g. only when the copy returned no error): the peer never sees end-of-stream and the opposite direction hangs until it gives up")
+		// the half-close is not held back: nothing that waits for the other direction (WaitGroup
+		// wait, channel receive, the other copy) lies between the end of this copy and the
+		// CloseWrite of its destination
+		delayed := ""
+		for _, v := range c.fc.G.V {
+			if !reach[v.ID] || v.Node == nil {
+				continue
+			}
+			blocking := false
+			inspectNoLit(v.Node, func(n ast.Node) bool {
+				switch x := n.(type) {
+				case *ast.CallExpr:
+					if fn := Callee(c.fc.Info(), x); fn != nil {
+						if (fn.Name() == "Wait" && namedTypeName(recvTypeOf(fn)) == "WaitGroup") || (fn.Pkg() != nil && fn.Pkg().Path() == "io" && fn.Name() == "Copy") {
+							blocking = true
+						}
+					}
+				case *ast.UnaryExpr:
+					if x.Op == token.ARROW {
+						blocking = true
+					}
+				}
+				return true
+			})
+			if blocking && v.ID != c.cs.V {
+				delayed = exprStr(v.Node)
+			}
+		}
+		r.Check(delayed == "", rule, fmt.Sprintf("netio.BidirectionalCopy:copy#%d-CloseWrite-not-delayed", i), c.cs.Pos(), dirName+": the half-close follows the copy immediately",
+			dirName+": "+delayed+" runs between the end of the copy and CloseWrite on its destination: the end-of-stream of one side is passed on only after the other direction has finished too, so a peer that waits for EOF before closing never finishes")
 		// wrong side closed
 		for _, cs := range c.fc.AllCalls() {
 			if sel, ok := ast.Unparen(cs.Call.Fun).(*ast.SelectorExpr); ok && (sel.Sel.Name == "CloseWrite" || sel.Sel.Name == "Close" || sel.Sel.Name == "CloseRead") {
